@@ -62,6 +62,10 @@ type RemoteNode struct {
 
 var configLock sync.Mutex
 
+// ConfigFile is the configuration file given explicitly (--config); empty
+// means config.yaml of the configuration directory.
+var ConfigFile string
+
 func Load() (*Config, error) {
 	configLock.Lock()
 	defer configLock.Unlock()
@@ -69,6 +73,11 @@ func Load() (*Config, error) {
 	// Set default values for config keys.
 	if err := setupViper(); err != nil {
 		return nil, err
+	}
+
+	// setupViper's SetConfigName resets an explicit file; set it afterwards.
+	if ConfigFile != "" {
+		viper.SetConfigFile(ConfigFile)
 	}
 
 	// Populate viper with environment variables.
